@@ -1,23 +1,37 @@
 #!/usr/bin/env python3
 """Regenerate lean/C2paModel/Gen/C23Sites.lean from /repo/sdk/src.
 
-For every `check_progress(` call site (outside tests and the definition itself) classify what
-the source does with the `Result`:
-  q     the call expression is immediately followed by `?`
-  tail  the call is the tail expression of a closure / block (its value is returned to a
-        caller that itself is a listed consumer: `progress(step, total)?` inside the hashing
-        functions)
-  other anything else (assigned, matched, ignored …)  -> the table theorem fails
-Also lists every invocation of a progress closure parameter (`progress(`/`cb(` … inside the
-hashing code) and whether it is followed by `?`, and counts the `match hash_result` sites of
-Claim::verify_hash_binding together with the guards that propagate cancellation.
-Fails closed (exit 1) on anything it cannot parse.
+The table is about FUNCTIONS and CALLERS (c23_analyse.py / c23_rustscan.py do the work):
+
+  cancelFns    transitive closure of the functions that can return Error::OperationCancelled:
+               they contain a `check_progress` call, call such a function, or forward a closure
+               that does so as a progress callback
+  condFns      functions that can do so only through a `FnMut(..) -> Result` parameter they invoke
+  callers      one row per call of such a function (or invocation of such a parameter / closure):
+               (caller, callee, line, disposition). `propagate` only when the error syntactically
+               reaches the caller's own return value (`?`, `return`, tail position through blocks /
+               if-else / match arms / let bindings / tuples, a `match` whose first arm able to
+               match Err(OperationCancelled) returns or carries it, a closure handed to a
+               progress-taking callee, a `Result` parameter whose callee does the same);
+               everything else (`.ok()`, `unwrap_or…`, `map_err`, `let _ =`, `if let`, `match … Err(e)
+               => log`, argument of an unknown function, discarded statement …) is `swallow`
+  sites        the rows whose callee is `check_progress` as (file, line, disposition): the
+               checkpoints themselves (the harness reports the (file, line) of every checkpoint an
+               operation reaches, obtained with #[track_caller])
+  invocations  the rows that invoke a progress parameter / closure
+Also counts the `match hash_result` sites of Claim::verify_hash_binding with their guards (kept
+from the first version of the table). Fails closed (exit 1) on anything it cannot parse.
 """
 import hashlib, json, os, re, sys
 
+sys.dont_write_bytecode = True
+sys.path.insert(0, os.path.dirname(os.path.abspath(__file__)))
+from c23_rustscan import ScanError  # noqa: E402
+from c23_analyse import analyse  # noqa: E402
+
 ROOT = os.path.dirname(os.path.dirname(os.path.abspath(__file__)))
-SRC = "/repo/sdk/src"
-OUT = os.path.join(ROOT, "lean/C2paModel/Gen/C23Sites.lean")
+SRC = os.environ.get("C23_SRC", "/repo/sdk/src")
+OUT = os.environ.get("C23_OUT", os.path.join(ROOT, "lean/C2paModel/Gen/C23Sites.lean"))
 
 
 def fail(m):
@@ -25,94 +39,42 @@ def fail(m):
     sys.exit(1)
 
 
-def strip_tests(text):
-    i = text.find("#[cfg(test)]\nmod tests")
-    j = text.find("#[cfg(test)]\npub mod tests")
-    k = text.find("#[cfg(test)]\npub(crate) mod tests")
-    cut = min([x for x in (i, j, k) if x >= 0], default=-1)
-    return text if cut < 0 else text[:cut]
+def lean_str(s):
+    return '"' + s.replace("\\", "\\\\").replace('"', '\\"') + '"'
 
 
-def match_paren(text, i):
-    """i points at '('; return index after the matching ')'."""
-    depth = 0
-    while i < len(text):
-        c = text[i]
-        if c == "(":
-            depth += 1
-        elif c == ")":
-            depth -= 1
-            if depth == 0:
-                return i + 1
-        i += 1
-    return -1
-
-
-def classify(text, start, end):
-    after = text[end:end + 200]
-    a = after.lstrip()
-    if a.startswith("?"):
-        return "q"
-    if a.startswith(".await") and a[6:].lstrip().startswith("?"):
-        return "q"
-    # tail expression: next non-space token closes a block/closure or an argument list
-    if a.startswith("}") or a.startswith(")") or a.startswith(","):
-        return "tail"
-    if a.startswith(";"):
-        # `let mut cb = |step, total| ctx.check_progress(..);`  -> closure whose body is the call
-        line_start = text.rfind("\n", 0, start) + 1
-        prefix = text[line_start:start]
-        prev = text[max(0, line_start - 200):line_start]
-        if re.search(r"\|[^|]*\|\s*(\w+\.)*\s*$", prefix) or re.search(r"\|[^|]*\|\s*$", prev.rstrip() + " ") and prefix.strip().endswith("."):
-            return "tail"
-        if re.search(r"\|[^|]*\|\s*[\w.]*$", prefix):
-            return "tail"
-        return "other"
-    return "other"
+def lean_list(items, indent="  "):
+    return ",\n".join(indent + x for x in items)
 
 
 def main():
-    sites = []
-    invocations = []
-    files = []
-    for d, _, fs in os.walk(SRC):
-        if "verif_hooks" in d:
-            continue
-        for f in fs:
-            if f.endswith(".rs"):
-                files.append(os.path.join(d, f))
-    files.sort()
-    h = hashlib.sha256()
-    for path in files:
-        text = strip_tests(open(path, errors="replace").read())
-        rel = os.path.relpath(path, SRC)
-        for m in re.finditer(r"check_progress\(", text):
-            ls = text.rfind("\n", 0, m.start()) + 1
-            line = text[ls:text.find("\n", m.start())]
-            if "fn check_progress" in line or line.strip().startswith("//"):
-                continue
-            end = match_paren(text, m.end() - 1)
-            if end < 0:
-                fail(f"unbalanced parens at {rel}")
-            ln = text.count("\n", 0, m.start()) + 1
-            disp = classify(text, m.start(), end)
-            sites.append((rel, ln, disp))
-            h.update(f"{rel}:{disp}:{text[m.start():end]}".encode())
-        # invocations of progress closures inside the hashing code
-        if rel in ("utils/hash_utils.rs", "assertions/bmff_hash.rs", "assertions/box_hash.rs",
-                   "assertions/data_hash.rs", "utils/merkle.rs", "asset_handlers/bmff_io.rs"):
-            for m in re.finditer(r"\b(progress|progress_cb|cb|progress_tick|Self::progress_tick)\(", text):
-                ls = text.rfind("\n", 0, m.start()) + 1
-                line = text[ls:text.find("\n", m.start())]
-                if line.strip().startswith("//") or "fn " in line:
-                    continue
-                end = match_paren(text, m.end() - 1)
-                ln = text.count("\n", 0, m.start()) + 1
-                after = text[end:end + 20].lstrip()
-                ok = after.startswith("?") or after.startswith("}")  # `?` or tail value of the fn
-                invocations.append((rel, ln, "q" if ok else "other"))
-                h.update(f"{rel}:inv:{text[m.start():end]}".encode())
-    claim = strip_tests(open(os.path.join(SRC, "claim.rs")).read())
+    try:
+        a = analyse(SRC)
+        rows = a.rows()
+    except ScanError as e:
+        fail(str(e))
+    except Exception as e:  # fail closed on any scanner bug
+        fail(f"internal error: {type(e).__name__}: {e}")
+    if not rows:
+        fail("no call of a cancellable function found")
+    if not any(f.name == "check_progress" and f.impl == "Context" for f in a.fns):
+        fail("Context::check_progress not found")
+    rows.sort(key=lambda r: (r[0], r[3], r[2]))
+    sites = [(r[0], r[3], r[4], r[5]) for r in rows if r[2] == "check_progress"]
+    invocations = [(r[0], r[3], r[4], r[5]) for r in rows if r[6] in ("param", "closure")]
+    if not sites:
+        fail("no check_progress call sites found")
+    cancel_fns = sorted(a.fns[i].qual() for i in a.uncond)
+    cond_fns = sorted(a.fns[i].qual() for i in a.cond)
+    # every row's caller that returns a Result must itself be in the closure (sanity of the fixpoint)
+    capable = set(cancel_fns) | set(cond_fns)
+    for r in rows:
+        f = next(x for x in a.fns if x.qual() == r[1] and x.file == r[0])
+        if r[4] == "propagate" and r[1] not in capable:
+            fail(f"row {r[1]}:{r[3]} propagates but its caller is not in the closure")
+
+    claim_path = os.path.join(SRC, "claim.rs")
+    claim = open(claim_path).read()
     m = re.search(r"fn verify_hash_binding\(.*?\n    }\n", claim, re.S)
     if not m:
         fail("verify_hash_binding not found")
@@ -121,28 +83,50 @@ def main():
     guards = len(re.findall(r"Err\(e\) if Self::is_fatal_hash_binding_error\(&e\) => return Err\(e\)", body))
     fatal = re.search(r"fn is_fatal_hash_binding_error\(e: &Error\) -> bool \{(.*?)\n    }\n", claim, re.S)
     cancels_fatal = bool(fatal and re.search(r"Error::OperationCancelled\s*=>\s*true", fatal.group(1)))
-    if not sites:
-        fail("no check_progress call sites found")
 
-    def row(t):
-        return f'  ("{t[0]}", {t[1]}, Disp.{"propagate" if t[2] in ("q", "tail") else "swallow"})'
+    SILENT = (".ok()", ".err()", ".is_ok()", ".is_err()", ".unwrap_or", ".or(", ".or_else(", "let _ =", "discarded;",
+              ".map_or", ".iter()", ".into_iter()", ".filter_map", ".flatten", ".flat_map")
 
+    def d3(x, detail):
+        if x == "propagate":
+            return "Disp.propagate"
+        # dropped without a trace vs. turned into something else (log entry, other error, panic)
+        return "Disp.discard" if any(detail.startswith(s) for s in SILENT) else "Disp.swallow"
+
+    h = hashlib.sha256()
+    for r in rows:
+        h.update(repr(r[:6]).encode())
     text = f"""import C2paModel.Model.C23
 /-
 GENERATED on every check run by translators/c23_sites.py — do not edit.
-`sites`: every `check_progress(` call site in sdk/src (file, line, disposition of the Result:
-`propagate` = followed by `?` or returned as the tail value of a closure/block; `swallow` =
-anything else). `invocations`: every call of a progress closure inside the hashing code.
+`cancelFns`: the functions of sdk/src that can return Error::OperationCancelled (transitive closure
+from Context::check_progress over calls and forwarded progress closures); `condFns`: those that can
+only through a progress-callback parameter. `callers`: every call of such a function /
+invocation of such a parameter or closure as (caller, callee, line, disposition of the Result).
+`sites`: the rows whose callee is `check_progress` as (file, line, disposition).
+`invocations`: the rows that invoke a progress parameter / closure.
 -/
 namespace C2pa.C23.Gen
 open C2pa.C23
 
+def cancelFns : List String := [
+{lean_list([lean_str(x) for x in cancel_fns])}
+]
+
+def condFns : List String := [
+{lean_list([lean_str(x) for x in cond_fns])}
+]
+
+def callers : List (String × String × Nat × Disp) := [
+{lean_list([f"({lean_str(r[1])}, {lean_str(r[2])}, {r[3]}, {d3(r[4], r[5])})" for r in rows])}
+]
+
 def sites : List (String × Nat × Disp) := [
-{chr(10).join(row(t) + ("," if i + 1 < len(sites) else "") for i, t in enumerate(sites))}
+{lean_list([f"({lean_str(s[0])}, {s[1]}, {d3(s[2], s[3])})" for s in sites])}
 ]
 
 def invocations : List (String × Nat × Disp) := [
-{chr(10).join(row(t) + ("," if i + 1 < len(invocations) else "") for i, t in enumerate(invocations))}
+{lean_list([f"({lean_str(s[0])}, {s[1]}, {d3(s[2], s[3])})" for s in invocations])}
 ]
 
 /-- number of `match hash_result` sites in `Claim::verify_hash_binding` -/
@@ -158,16 +142,25 @@ end C2pa.C23.Gen
     if old != text:
         os.makedirs(os.path.dirname(OUT), exist_ok=True)
         open(OUT, "w").write(text)
-    info = {"table": "C23Sites", "sites": len(sites), "swallow": [s for s in sites if s[2] == "other"],
-            "invocations": len(invocations), "inv_other": [s for s in invocations if s[2] == "other"],
+    swallow = [r for r in rows if r[4] == "swallow"]
+    failures = []
+    for r in swallow:
+        if r[2] == "check_progress":
+            failures.append({"class": f"swallow-site:{r[0]}", "case": 0, "request": f"{r[0]}:{r[3]}",
+                             "detail": f"check_progress result at sdk/src/{r[0]}:{r[3]} ({r[1]}) is not propagated ({r[5]}): a `false` answer of the progress callback at this checkpoint does not end the operation with OperationCancelled"})
+        else:
+            failures.append({"class": f"swallow-caller:{r[1]}", "case": 0, "request": f"{r[0]}:{r[3]}",
+                             "detail": f"{r[1]} (sdk/src/{r[0]}:{r[3]}) calls {r[2]}, which can return OperationCancelled, and does not return that error to its own caller ({r[5]})"})
+    info = {"table": "C23Sites", "functions_scanned": len(a.fns), "cancel_fns": len(cancel_fns), "cond_fns": len(cond_fns),
+            "callers": len(rows), "sites": len(sites), "invocations": len(invocations),
+            "swallow": [[r[1], r[2], r[3], r[5]] for r in swallow],
             "hash_result_matches": matches, "guards": guards, "cancel_is_fatal": cancels_fatal,
             "sha256": h.hexdigest()[:16], "changed": old != text,
-            # sites that swallow the cancellation are property failures of the implementation
-            "oracle_failures": [
-                {"class": f"swallow-site:{s[0]}", "case": 0, "request": f"{s[0]}:{s[1]}",
-                 "detail": f"check_progress result at sdk/src/{s[0]}:{s[1]} is neither propagated with `?` nor returned: a `false` answer of the progress callback at this checkpoint does not end the operation with OperationCancelled"}
-                for s in sites if s[2] == "other"]}
+            "oracle_failures": failures}
     print("TABLE " + json.dumps(info))
+    if os.environ.get("C23_DUMP"):
+        for r in rows:
+            print("ROW", r)
 
 
 if __name__ == "__main__":
